@@ -129,6 +129,10 @@ type Scenario struct {
 	// CancelTail: after the history one more turnover is attempted under an already cancelled context (every species'
 	// reproduction gives up with the context's error); nothing is asserted about its result, it exercises the failure path
 	CancelTail bool `json:"cancelled_turnover_at_the_end,omitempty"`
+	// Winners > 0: the evaluation also flags organisms as winners (IsWinner), about one in Winners of them whatever their
+	// fitness (an experiment that goes on after its first solver, or whose winner criterion is not the fitness rank); the flag
+	// is a label for the records, not an input of the turnover
+	Winners int `json:"winner_flag_one_in,omitempty"`
 }
 
 type WarmSpec struct {
@@ -219,6 +223,9 @@ func genScenario(cfg ScenarioCfg) *rapid.Generator[Scenario] {
 		}
 		if cfg.CancelTail {
 			sc.CancelTail = rapid.Bool().Draw(t, "cancelled tail")
+		}
+		if rapid.IntRange(0, 4).Draw(t, "winner flags") == 0 {
+			sc.Winners = rapid.SampledFrom([]int{1, 2, 3, 7}).Draw(t, "winner one in")
 		}
 		if sc.Ctor == "reread" {
 			sc.PreEpochs = rapid.IntRange(1, 8).Draw(t, "pre epochs")
@@ -445,6 +452,12 @@ func runScenario(sc Scenario, h epochHooks, rec *Rec) error {
 		n := len(pop.Organisms)
 		for i, o := range pop.Organisms {
 			o.Fitness = fitnessOf(sc.Fit, e, i, n, o.Genotype)
+			if sc.Winners > 0 {
+				o.IsWinner = int(unitHash(sc.Fit.Salt, int64(e), int64(i), 77)*1000)%sc.Winners == 0
+			}
+		}
+		if sc.Winners > 0 {
+			rec.Class("organisms flagged as winners by the evaluation")
 		}
 		if h.before != nil {
 			if err := h.before(e, pop); err != nil {
